@@ -10,11 +10,11 @@ import (
 type world struct{}
 
 func (world) Name() string    { return "chain" }
-func (world) Props() []string { return []string{"C15", "C16", "C17", "C36"} }
+func (world) Props() []string { return []string{"C15", "C16", "C17", "C36", "C26"} }
 func (world) Bubble(p string) bool {
 	switch p {
-	case "C15", "C16":
-		return false
+	case "C15", "C16", "C26":
+		return false // C26 needs a wall-clock watchdog: a lookup that never returns is part of the property
 	}
 	return true
 }
@@ -32,6 +32,8 @@ func (world) Run(k *kernel.K) {
 		runFinality(k)
 	case "C36":
 		runCrash(k)
+	case "C26":
+		runEpoch(k)
 	}
 }
 func (world) Rule(p string) string {
@@ -40,6 +42,8 @@ func (world) Rule(p string) string {
 		return "one run = 1-3 real blocktree.BlockTree instances fed the same generated blocks (depth<=12, siblings, primary/secondary marks, tied arrival instants) through per-node inboxes whose delivery order, duplication and interleaving with finalisations are tape-chosen; after every event the touched node is compared with a reference tree built from parent links (block set, leaves, best block, pruned set, ancestry/LCA/range/by-number queries on sampled and finally all pairs). A run is non-trivial if it finalised at least once with >=2 blocks in the tree or delivered out of order/duplicated; distinct = distinct event-kind sequence fingerprint."
 	case "C17":
 		return "one run = a real dot/state BlockState+StorageState over simdisk inside a synctest bubble; blocks with real state tries are imported in tape-chosen order, finalisation requests target descendants, the head again, stale ancestors, pruned siblings and unknown hashes; restarts reload from the simulated disk. After every request: accepted => known descendant; rejected => head/tree/unfinalised/tries unchanged; every finalised-chain block resolvable by number from the DB; no abandoned block retrievable as unfinalised, no abandoned state trie cached. Non-trivial = at least one accepted finalisation that abandoned >=1 block or one restart."
+	case "C26":
+		return "one run = a real dot/state EpochState+BlockState (+ the real dot/digest BlockImportHandler) over the simulated disk; generated blocks on competing forks with tape-chosen slot gaps (epoch length 10, skipped epochs included) announce next-epoch data and configuration in the first block of an epoch on their chain (sometimes not at all); blocks are imported, finalised (followed by the persistence steps of the digest handler), the node is crashed and restarted (unfinalised blocks re-imported); for live blocks the epoch data and configuration of their epoch and the next one are looked up under a 40 s wall-clock watchdog and compared with what walking that block's own ancestry finds (latest earlier configuration, genesis as fallback). A lookup that does not return is a violation. Non-trivial = at least one finalisation or restart."
 	case "C36":
 		return "fault enumeration: one run = one generated scenario (4-26 operations: block imports with real state tries, forks, scheduled and forced GRANDPA authority changes, finalisations with justification/votes/round bookkeeping in the order lib/grandpa and dot/core issue them) executed once over the simulated disk; then the node is restarted through the real state.Service.Start() reload path from EVERY prefix of the write log (each Put one record, each batch one atomic record). Oracle per restart: start succeeds; finalised head header, body and full state readable and equal to the reference; finalised number and (set id, round) never older than at the previous crash index; current set id has an authority list and an activation block. Crash indexes are enumerated completely per scenario, scenarios are sampled. Non-trivial = at least 10 writes."
 	}
@@ -53,6 +57,9 @@ func (world) Components(p string) ([]string, []string) {
 	case "C17":
 		return []string{"dot/state BlockState (AddBlock, SetFinalisedHash, handleFinalisedBlock, NewBlockState reload)", "dot/state InmemoryStorageState+Tries", "lib/blocktree", "pkg/trie/inmemory", "lib/runtime/storage.TrieState"},
 			[]string{"disk (simdisk)", "clock (synctest bubble)", "telemetry", "runtime (state changes drawn from the tape)", "network"}
+	case "C26":
+		return []string{"dot/state EpochState (HandleBABEDigest, GetEpochForBlock, GetEpochDataRaw, GetConfigData, findAncestor, FinalizeBABENextEpochData/ConfigData, restoreMapFromDisk)", "dot/state BlockState", "dot/digest BlockImportHandler.HandleDigests", "dot/types BABE consensus digests"},
+			[]string{"disk (simdisk)", "block production (tape-chosen slots and announcements)", "the asynchronous finalisation handler (its two persistence calls are issued right after SetFinalisedHash)", "telemetry"}
 	case "C36":
 		return []string{"dot/state Service.Start reload path (NewBlockState, LoadFromDB, NewEpochState, NewGrandpaState)", "dot/state BlockState.SetFinalisedHash/handleFinalisedBlock, SetJustification", "dot/state GrandpaState (digest handling, ApplyScheduledChanges, ApplyForcedChanges, IncrementSetID, votes/round bookkeeping)", "dot/state InmemoryStorageState.StoreTrie + pkg/trie/inmemory WriteDirty", "internal/database table/batch wrappers"},
 			[]string{"disk (simdisk write log replaces pebble)", "block execution (tape-chosen state changes)", "lib/grandpa and dot/core/dot/digest callers (their call order is replayed by the harness)", "clock (synctest bubble)", "telemetry"}
